@@ -178,7 +178,7 @@ def run(ctx):
                  kind=label.split(":")[0])
 
     # ---- (a) expand_intermediates ---------------------------------------
-    n_exp = 100 if quick else 600
+    n_exp = 100 if quick else 300
     # systematic stream: every intermediate once (and, order <= 2, fully)
     # expanded inside a product that carries EVERY other letter of the index
     # alphabets as target index - a name leaking out of a definition is
@@ -296,7 +296,7 @@ def run(ctx):
     fact = sys.modules["adcgen.factor_intermediates"].factor_intermediates
     simplify = sys.modules["adcgen.simplify"].simplify
     reduce_expr = sys.modules["adcgen.reduce_expr"].reduce_expr
-    n_fac = 10 if quick else 40
+    n_fac = 10 if quick else 25
     fnames = ["t2_1", "t1_2", "t2_2", "p0_2_oo", "p0_2_vv", "t2eri_3",
               "t2eri_4", "t2eri_5", "t2sq"]
     if not quick:
